@@ -128,18 +128,53 @@ func runC18(c *Ctx) {
 		c.MustCross("C18-R4", pfn, "os.Rename", top(isPlainCallTo(rename)), OnFalse("Sync err", CallTo(fsync)))
 		c.MustCross("C18-R4", pfn, "os.Rename", top(isPlainCallTo(rename)), OnFalse("Close err", CallTo(fclose)))
 		c.MustCross("C18-R4", pfn, "tmp.Close (success path)", top(isPlainCallTo(fclose)), OnFalse("Sync err", CallTo(fsync)))
-		// no write after Sync
-		c.MustCrossFrom("C18-R4", pfn, "write after Sync", top(isPlainCallTo(fsync)), top(isPlainCallTo(fwrite)))
-		// cleanup on every failure exit
-		removes := func(in ssa.Instruction) bool { return c18CallReaches(in, osRemove, 3) }
-		for _, f := range []*types.Func{fwrite, fsync, fclose, rename} {
-			errIdx := 0
-			if f == fwrite {
-				errIdx = 1
+		// no write after Sync — wherever the Sync call lives (persist itself or an unexported helper)
+		nsync := 0
+		for _, f := range scopeFuncs(pfn) {
+			for _, in := range instrsWhere(f, func(in ssa.Instruction) bool { return in.Parent() == f && isPlainCallTo(fsync)(in) }) {
+				nsync++
+				r := reach([]Point{pointAfter(in)}, nil, nil)
+				bad := false
+				for _, t := range r.order {
+					if hit, ok := hitIn(t, isPlainCallTo(fwrite), nil); ok {
+						bad = true
+						c.violation("C18-R4", "C18-R4|persist|write after Sync", instrPos(hit), "the temp file is written again after it was synced")
+						break
+					}
+				}
+				if !bad {
+					c.ok("C18-R4", "C18-R4|persist|write after Sync", instrPos(in), "nothing is written after tmp.Sync()")
+				}
 			}
-			c.AfterEdge("C18-R4", pfn, "failure exit without removing the temp file ("+f.Name()+")", OnTrue(f.Name()+" err", ResultOf(errIdx, f)), isReturn,
-				Barrier{Name: "os.Remove(tmp)", Instr: removes})
 		}
+		if nsync == 0 {
+			c.violation("C18-R4", "C18-R4|persist|write after Sync", pfn.Pos(), "persist never syncs the temp file")
+		}
+		// and in persist, nothing is written after the helper that syncs returned
+		for _, in := range instrsWhere(pfn, func(in ssa.Instruction) bool {
+			cl, ok := in.(*ssa.Call)
+			if !ok || in.Parent() != pfn {
+				return false
+			}
+			if h := localHelper(pfn, &cl.Call); h != nil {
+				_, has := helperHasTarget(h, isPlainCallTo(fsync), nil, 0)
+				return has
+			}
+			return false
+		}) {
+			r := reach([]Point{pointAfter(in)}, nil, nil)
+			for _, t := range r.order {
+				if hit, ok := hitIn(t, isPlainCallTo(fwrite), nil); ok {
+					c.violation("C18-R4", "C18-R4|persist|write after Sync", instrPos(hit), "the temp file is written again after the syncing helper returned")
+					break
+				}
+			}
+		}
+		// cleanup on every failure exit: once the temp file exists, persist returns only
+		// across a successful Rename or after removing the temp file
+		removes := func(in ssa.Instruction) bool { return c18CallReaches(in, osRemove, 3) }
+		c.AfterEdge("C18-R4", pfn, "exit that neither renamed nor removed the temp file", OnFalse("CreateTemp err", ResultOf(1, createTemp)), isReturn,
+			Barrier{Name: "os.Remove(tmp)", Instr: removes}, OnFalse("Rename err", CallTo(rename)))
 	}
 	allowedCreate := map[string]string{
 		"os.CreateTemp|(*" + pkg + ".BlockList).persist":        "temp file of the atomic replacement",
@@ -178,8 +213,21 @@ func runC18(c *Ctx) {
 	next := c.fobj("C18-R5", "middleware.(*Chain).Next")
 	cancel := c.fobj("C18-R5", "middleware.(*Chain).Cancel")
 	if sfn := c.fn("C18-R5", pkg+".(*BlockList).ServeDNS"); sfn != nil && exists != nil && next != nil && cancel != nil {
-		c.MustCross("C18-R5", sfn, "ch.Next", isCallTo(next), OnFalse("Exists", CallTo(exists)),
-			OnFalse("hasEntries", func(e *Expr) bool { return e.K == EPhi && Contains(AnyOf(FieldIs(mF), FieldIs(wildF)))(e) }))
+		// the chain continues only for a name that is not blocked, or when BOTH tables are empty
+		// (two obligations, one per table, so the order and the spelling of the emptiness test do not matter)
+		lenPos := func(fv *types.Var) Pat {
+			return func(e *Expr) bool {
+				e = strip(e)
+				return e != nil && e.K == ECall && e.Method == "builtin.len" && len(e.Args) == 1 && FieldIs(fv)(e.Args[0])
+			}
+		}
+		for _, t := range []struct {
+			n  string
+			fv *types.Var
+		}{{"len(b.m)>0", mF}, {"len(b.wild)>0", wildF}} {
+			c.MustCross("C18-R5", sfn, "ch.Next", isCallTo(next), OnFalse("Exists", CallTo(exists)),
+				OnCmp(t.n+" is false", lenPos(t.fv), token.GTR, IsConstInt(0), false))
+		}
 		c.AfterEdge("C18-R5", sfn, "blocked name continues the chain", OnTrue("Exists", CallTo(exists)), isCallTo(next))
 		c.AfterEdge("C18-R5", sfn, "blocked name returns without an answer", OnTrue("Exists", CallTo(exists)), isReturn, Barrier{Name: "WriteMsg", Instr: isCallNamed("WriteMsg")})
 		c.AfterEdge("C18-R5", sfn, "blocked name returns without Cancel", OnTrue("Exists", CallTo(exists)), isReturn, CallBarrier("Cancel", cancel))
